@@ -1345,6 +1345,7 @@ fn run_dn(bytes: &[u8], drv: &mut Driver, rep: &mut Report) {
     let model = {
         let r = drv.ask(&input);
         match r.split_once(' ') {
+            Some(_) if r.starts_with("err:") => r,
             Some((ix, h)) => format!("ok:{ix} {}", String::from_utf8(unhex(h)).unwrap()),
             None => r,
         }
